@@ -202,6 +202,15 @@ def multinomial_counts(ck):
             w[rng.integers(m)] = 0.0
             w /= w.sum()
         n = int(rng.integers(5, 60))
+        if c % 2 == 1:
+            # a pool much larger than the number of draws (the persistent pool of a long run), with a few entries whose
+            # expected number of copies exceeds one
+            n = int(rng.integers(8, 40))
+            m = int(rng.integers(8, 25)) * n
+            w = rng.dirichlet(np.full(m, 0.3))
+            top = rng.choice(m, 3, replace=False)
+            w[top] += rng.uniform(1.5, 4.0, 3) / n
+            w /= w.sum()
         sm = StateManager(1)
         sm.update_current(dict(u=np.arange(m, dtype=float).reshape(-1, 1) / m, x=np.arange(m, dtype=float).reshape(-1, 1),
                                logl=-np.arange(m, dtype=float), beta=0.3, logz=0.0))
